@@ -6,6 +6,11 @@ ALL = ["C%02d" % i for i in range(1, 21)]
 
 # id -> (level category, engine, technique, level text, level note, design ref)
 CLAIMED = {
+ "C19": ("model_checking", "E2 enumeration over data trees and input interleavings",
+         "bounded exhaustive enumeration of trees/text alphabets through both real XML writers and the XML reader, plus every order-preserving interleaving of sibling elements on input, compared with the tree",
+         "Every tree up to the size bound over three structural schemas, lists of 0..5 entries and an all-types baseline with each leaf over its value alphabet (XML-hostile text: markup characters, quotes, CDATA terminator, outer/inner whitespace, tab/newline/CR, non-ASCII, non-BMP) is written by XMLWtr2 (compact and pretty) and the streaming XMLWtr; the output must be a single-root well-formed document for encoding/xml and must read back through ReadXMLDoc + UpsertFrom to the same tree. Harness-rendered documents are permuted into every interleaving of sibling elements that keeps the order within each list/leaf-list (top level, inside a list entry, inside a container) and each must read to the same tree.",
+         "trusted: encoding/xml as the well-formedness oracle, the harness XML renderer; characters XML 1.0 cannot carry are outside the alphabet; augmenting modules (namespace changes) not yet covered",
+         "DESIGN.md section 7 C19"),
  "C15": ("model_checking", "E2 enumeration over data trees + E4 stream-fault enumeration",
          "bounded exhaustive enumeration of trees x writer configurations x start selections on the real JSON writer, output decoded by encoding/json and compared with the tree; every failing byte position of the output stream enumerated",
          "Every tree up to the size bound over three structural schemas, lists of 0..5 entries, per-type boundary alphabets over an all-types schema and nesting depths 1..70, written under all 8 Pretty/EnumAsIds/QualifyNamespace configurations from every start selection present (root, container, list, list entry, leaf, leaf-list) and through 5 entry functions; the output must decode as exactly one JSON value followed by EOF whose members, shapes, qualification and typed values equal the tree, pretty and compact must decode equal, and for every byte position k an output stream failing at k (plain and short write) must surface as an error.",
